@@ -104,13 +104,18 @@ func contractIdents(ct *Contract) map[string]bool {
 	return m
 }
 
-// renamedParam: the parameter an unknown name of the contract stands for, if there is exactly one
-// parameter the contract does not mention (and the name was not bound to another one before).
-func (e *Engine) renamedParam(ct *Contract, names []string, unknown string) (int, bool) {
+// renamedParam: the parameter an unknown name of the contract stands for: a parameter the contract
+// does not mention. If several parameters are unmentioned, the one (and only one) for which every
+// clause of the contract still type-checks is taken (a byte predicate applied to a configuration
+// pointer does not), otherwise the name stays unknown.
+func (e *Engine) renamedParam(ct *Contract, names []string, tys []types.Type, sig *types.Signature, pkg *types.Package, unknown string) (int, bool) {
 	if ct == nil {
 		return 0, false
 	}
 	ids := contractIdents(ct)
+	if !ids[unknown] {
+		return 0, false
+	}
 	var free []int
 	for i, n := range names {
 		if n == "" || n == "_" || ids[n] {
@@ -118,23 +123,87 @@ func (e *Engine) renamedParam(ct *Contract, names []string, unknown string) (int
 		}
 		free = append(free, i)
 	}
-	if len(free) != 1 {
-		return 0, false
-	}
 	if ct.Renamed == nil {
 		ct.Renamed = map[string]string{}
 	}
 	if prev, ok := ct.Renamed[unknown]; ok {
-		return free[0], prev == names[free[0]]
+		for i, n := range names {
+			if n == prev {
+				return i, true
+			}
+		}
+		return 0, false
 	}
-	for _, v := range ct.Renamed {
-		if v == names[free[0]] {
-			return 0, false // already taken by another unknown name
+	taken := map[string]bool{}
+	for k, v := range ct.Renamed {
+		if !strings.HasPrefix(k, "loop") {
+			taken[v] = true
 		}
 	}
-	ct.Renamed[unknown] = names[free[0]]
-	e.note("contract of %s: the name %q is not a parameter any more; read as the one parameter the contract does not mention, %q (renamed?)", ct.Target, unknown, names[free[0]])
-	return free[0], true
+	var viable []int
+	for _, i := range free {
+		if taken[names[i]] {
+			continue
+		}
+		if len(free) == 1 || e.contractTypeChecks(ct, names, tys, sig, pkg, unknown, i) {
+			viable = append(viable, i)
+		}
+	}
+	if len(viable) != 1 {
+		return 0, false
+	}
+	ct.Renamed[unknown] = names[viable[0]]
+	e.note("contract of %s: the name %q is not a parameter any more; read as the parameter %q, which the contract does not mention (renamed?)", ct.Target, unknown, names[viable[0]])
+	return viable[0], true
+}
+
+// contractTypeChecks: do the pre- and postconditions of ct evaluate without a type error when the
+// unknown name stands for parameter cand? (A dry run on fresh symbolic values in a scratch state.)
+func (e *Engine) contractTypeChecks(ct *Contract, names []string, tys []types.Type, sig *types.Signature, pkg *types.Package, unknown string, cand int) (ok bool) {
+	defer func() {
+		if r := recover(); r != nil {
+			ok = false
+		}
+	}()
+	if ct.Pkg != "" {
+		if tp := e.typesPkg(ct.Pkg); tp != nil {
+			pkg = tp
+		}
+	}
+	st := NewState()
+	env := map[string]TV{}
+	for i, n := range names {
+		if i < len(tys) {
+			env[n] = TV{V: freshOf("dry:"+n, tys[i], nil, true), T: tys[i]}
+		}
+	}
+	if cand >= len(tys) {
+		return false
+	}
+	env[unknown] = env[names[cand]]
+	if sig != nil {
+		var res []Value
+		for i := 0; i < sig.Results().Len(); i++ {
+			res = append(res, freshOf(fmt.Sprintf("dry:res%d", i), sig.Results().At(i).Type(), nil, true))
+		}
+		bindResults(env, sig, res)
+	}
+	ctx := &EvalCtx{eng: e, pkg: pkg, cur: st, old: st, env: env}
+	for _, l := range ct.Lets {
+		tv, err := ctx.Eval(l.E)
+		if err != nil {
+			return false
+		}
+		ctx.env[l.Text] = tv
+	}
+	for _, group := range [][]*Clause{ct.Requires, ct.Ensures, ct.XEnsures, ct.Panics} {
+		for _, c := range group {
+			if _, err := ctx.EvalBool(c.E); err != nil {
+				return false
+			}
+		}
+	}
+	return true
 }
 
 // renamedLoopVar: the variable an unknown name in the clauses of loop li stands for: the one
